@@ -276,9 +276,110 @@ def accepted_values_ok(case, o):
     return True
 
 
+US_DAY = 86400 * 10 ** 6
+
+
+def ref_timedelta(text):
+    """Independent reference reading of a timedelta text made of integer components: scan left to right
+    (blanks, [sign]digits, blanks, unit letters), look the unit up, ADD the components.  Returns total
+    microseconds, or None when the text is outside this simple integer form / out of range (no claim)."""
+    ws = set(WS_RE)
+    i, n, total = 0, len(text), 0
+    while i < n:
+        while i < n and text[i] in ws:
+            i += 1
+        if i >= n:
+            return None            # trailing blanks only after a component are eaten below; leading-only text is an error
+        sign = 1
+        if text[i] in "+-":
+            sign = -1 if text[i] == "-" else 1
+            i += 1
+        j = i
+        while j < n and text[j] in "0123456789":
+            j += 1
+        if j == i or (j < n and text[j] in ".eE"):
+            return None
+        num = sign * int(text[i:j])
+        if abs(num) >= 2 ** 53:
+            return None
+        i = j
+        while i < n and text[i] in ws:
+            i += 1
+        j = i
+        while j < n and ("a" <= text[j] <= "z" or "A" <= text[j] <= "Z"):
+            j += 1
+        if j < n and (text[j] in "0123456789_" or ord(text[j]) > 127):
+            return None            # the unit would extend over word characters this reader does not classify
+        unit = text[i:j]
+        if unit not in UNITS:
+            return None
+        i = j
+        while i < n and text[i] in ws:
+            i += 1
+        term = num * UNITS[unit]
+        if abs(term // US_DAY) > 999999999 and not (-999999999 <= term // US_DAY <= 999999999):
+            return None
+        total += term
+        if not (-999999999 <= total // US_DAY <= 999999999) or not (-999999999 <= term // US_DAY <= 999999999):
+            return None
+    return total
+
+
+def _td_claim(case, o, key, text):
+    """the option `key`, assigned `text` and never mentioned again, must show the reference sum"""
+    for idx, d in enumerate(case["defs"]):
+        if norm(d["name"]) == key:
+            break
+    else:
+        return True
+    if _eff_type(d) is not datetime.timedelta:
+        return True
+    if d["multiple"]:
+        parts = [ref_timedelta(p) for p in text.split(",")]
+        if any(p is None for p in parts):
+            return True
+        want = [[G.Tag("td"), p] for p in parts]
+    else:
+        r = ref_timedelta(text)
+        if r is None:
+            return True
+        want = [G.Tag("td"), r]
+    try:
+        return _same(o[1][idx], want)
+    except Exception:
+        return False
+
+
+def _mentions(s, key):
+    if "cmd" in s:
+        return any(norm(a.lstrip("-").partition("=")[0]) == key for a in s["cmd"])
+    return any(norm(n) == key for n, _ in _items(s))
+
+
+def timedelta_sum_ok(case, o):
+    """a timedelta text denotes the SUM of its components (first assignment of the first source, option not mentioned again)"""
+    if len({norm(d["name"]) for d in case["defs"]}) != len(case["defs"]) or not case["srcs"]:
+        return True
+    if not (isinstance(o, list) and len(o) == 2 and isinstance(o[1], list)):
+        return True
+    s0, rest = case["srcs"][0], case["srcs"][1:]
+    if "cmd" in s0 and len(s0["cmd"]) >= 2:
+        a = s0["cmd"][1]
+        name, eq, val = a.lstrip("-").partition("=")
+        later = [{"cmd": [s0["cmd"][0]] + s0["cmd"][2:]}] + rest
+        if a.startswith("-") and eq and not any(_mentions(x, norm(name)) for x in later):
+            return _td_claim(case, o, norm(name), val)
+    if "cfg" in s0 and s0["cfg"] and isinstance(s0["cfg"][0][1], dict) and "s" in s0["cfg"][0][1]:
+        name, v = s0["cfg"][0]
+        later = [{"cfg": s0["cfg"][1:]}] + rest
+        if not any(_mentions(x, norm(name)) for x in later):
+            return _td_claim(case, o, norm(name), v["s"])
+    return True
+
+
 def py_check(case, o):
     """independent oracle: (a) accepted objects are well-typed element-wise; (b) the generator knows which values it printed"""
-    if not accepted_values_ok(case, o):
+    if not accepted_values_ok(case, o) or not timedelta_sum_ok(case, o):
         return False
     exp = case.get("expect")
     if exp is None:
@@ -463,7 +564,42 @@ UNITS = {"h": 3600 * 10 ** 6, "hours": 3600 * 10 ** 6, "m": 60 * 10 ** 6, "min":
 BAD_UNITS = ["H", "day", "hour", "x", "mins", "S", "e", "_", "h1", "\xe9", "\xb2", "ss", "Ms"]
 
 
+UNIT_GROUPS = [["s", "sec", "seconds", ""], ["m", "min", "minutes"], ["h", "hours"], ["ms", "milliseconds"], ["us", "microseconds"], ["d", "days"], ["w", "weeks"]]
+
+
+def gen_td_repeated(rng):
+    """integer components, units deliberately repeated (same spelling / aliases / unit-less = seconds), negative terms"""
+    groups = [rng.choice(UNIT_GROUPS) for _ in range(rng.choice([1, 1, 2]))]
+    n = rng.choice([2, 2, 3, 4, 5])
+    terms = []
+    for i in range(n):
+        u = rng.choice(rng.choice(groups))
+        num = rng.choice([rng.randrange(0, 100), rng.randrange(-60, 100), rng.choice([90, 30, 15, 5, 1, 0, -15]), rng.randrange(0, 10 ** 5)])
+        terms.append([num, u])
+    for i, (num, u) in enumerate(terms):    # a unit-less number swallows a following unsigned component as its unit
+        if u == "" and i < n - 1 and terms[i + 1][0] >= 0:
+            terms[i][1] = "s"
+    loose = rng.random() < 0.3
+    parts = []
+    for num, u in terms:
+        parts.append(("%d" % num) + ((rng.choice(["", " ", "\t "]) if loose and u else "") + u))
+    sep = (lambda: rng.choice([" ", "  ", "\t"])) if loose else (lambda: " ")
+    t = parts[0]
+    for p in parts[1:]:
+        t += sep() + p
+    total = sum(num * UNITS[u] for num, u in terms)
+    run = 0
+    ok = True
+    for num, u in terms:
+        run += num * UNITS[u]
+        if abs(run // US_DAY) > 999999999 or abs((num * UNITS[u]) // US_DAY) > 999999999:
+            ok = False
+    return t, ({"td": total} if ok else UNK)
+
+
 def gen_timedelta(rng):
+    if rng.random() < 0.35:
+        return gen_td_repeated(rng)
     nterms = rng.choice([1, 1, 1, 2, 3, 5])
     parts = []
     total = Fraction(0)
@@ -623,6 +759,33 @@ def typed_cases():
             for v in (g, w, None, {"l": [g]}):
                 out.append({"defs": [{"name": "a", "ty": ty, "multiple": False, "default": None}], "srcs": [{path: [["a", v]]}]})
         out.append({"defs": [{"name": "a", "ty": ty, "multiple": False, "default": None}], "srcs": [{"set": [["zz", g]]}]})
+    return out
+
+
+TD_REPEATS = ["90s 30s", "1m 30min", "30sec 90", "1h -15m 5minutes", "1h 30m 30m", "5 -3", "10s -10s 10s", "1d 1days 1d", "2w 1weeks",
+              "100ms 900milliseconds", "1us 1microseconds 1us", "1hours 1h", "7 -7seconds 7sec", "-1m -1min -1minutes", "0s 0s", "45s 15", "1h 1m 1s 1h 1m 1s"]
+
+
+def td_sum_cases(rng, nrand):
+    """repeated-unit timedelta texts through the command line, a config-file string and a multiple=True option"""
+    out = []
+    texts = list(TD_REPEATS) + [gen_td_repeated(rng)[0] for _ in range(nrand)]
+    for i, t in enumerate(texts):
+        exp = ref_timedelta(t)
+        e = {"td": exp} if exp is not None else UNK
+        out.append(single("timedelta", t, expect=e))
+        c = {"defs": [{"name": "t_o", "ty": "timedelta", "multiple": False, "default": {"td": 5}}, {"name": "b", "ty": "int", "multiple": False, "default": None}],
+             "srcs": [{"cfg": [["t_o", {"s": t}]]}]}
+        if exp is not None:
+            c["expect"] = {"outs": [[]], "vals": [e, None]}
+        out.append(c)
+        t2 = texts[(i + 1) % len(texts)]
+        e2 = ref_timedelta(t2)
+        m = {"defs": [{"name": "x", "ty": "timedelta", "multiple": True, "default": None}],
+             "srcs": [{"cmd": ["p", "--x=" + t + "," + t2]} if i % 2 == 0 else {"cfg": [["x", {"s": t + "," + t2}]]}]}
+        if exp is not None and e2 is not None:
+            m["expect"] = {"outs": [[]], "vals": [{"l": [{"td": exp}, {"td": e2}]}]}
+        out.append(m)
     return out
 
 
@@ -807,6 +970,7 @@ def gen_cases(rng, tier):
     for i in range(n):
         out.append(gen_case(rng, focus=TY_NAMES[i % 6] if i % 2 == 0 else None))
     out += typed_cases()
+    out += td_sum_cases(rng, 12 if tier == "quick" else 200)
     # every bool spelling in every capitalisation
     for w, b in BOOL_WORDS.items():
         for mask in range(2 ** len(w)):
